@@ -64,11 +64,11 @@ P = {
   note="Trusted: as C10; race detector and goroutine accounting are search, not proof.",
   tech=TECH + " (tie H by histories); -race/goroutine search for the runtime clause", ref="DESIGN.md 6 C11"),
  "C12": dict(
-  text="Full for the paged-writer state machine, every stream and every page size p>0: one row per feature in order, n/p+1 transactions, extent = bounding box of all non-empty geometries (commutative idempotent monoid), one rtree entry per non-empty geometry, schema copied; p=0 is DivZero. srs rows pre-seeded by the GeoPackage library are not overwritten: known finding F10 (C12_refuted_srs_preseeded). The real TargetGeopackage is driven through the verif SQLite stand-in and the written file compared with the model.",
+  text="Full for the paged-writer state machine, every stream and every page size p>0: one row per feature in order, n/p+1 transactions, extent = bounding box of all non-empty geometries (commutative idempotent monoid), one rtree entry per non-empty geometry, schema and spatial reference system copied (also over an srs id the library pre-seeds: defect F10, repaired, C12_regression_F10); p=0 is DivZero. The real TargetGeopackage is driven through the verif SQLite stand-in and the written file compared with the model.",
   note="Trusted: Coq kernel; SQLite, go-sqlite3, the GeoPackage library and the verif stand-in for SpatiaLite functions are modelled, held to the code by correspondence on written files.",
   tech=TECH + " (tie H on written files)", ref="DESIGN.md 6 C12"),
  "C13": dict(
-  text="Partial (urfave/cli, file system, path, SQLite modelled). Theorems: target path = dir/name_<id>ext on the safe alphabet (full path.Clean model), distinct ids give distinct files, flag plumbing, validation gate, CLI = per-table composition of writer . route . pipeline(snap cfg), overwrite forgets prior content; C13_source_tie: flag->option map, suffix format and IsQuadTree-before-DeviationStats extracted from main.go's AST on every run. Weight is on the end-to-end correspondence of the real binary (built -tags verif, also -race) against the composition of library calls.",
+  text="Partial (urfave/cli, file system, path, SQLite modelled). Theorems: target path = dir/name_<id>ext on the safe alphabet (full path.Clean model), distinct ids give distinct files, flag plumbing, validation gate, CLI = per-table composition of writer . route . pipeline(snap cfg), overwrite forgets prior content; C13_source_tie: flag->option map, suffix format, statement shape of injectSuffixIntoPath and IsQuadTree-before-DeviationStats extracted from main.go's AST on every run. Weight is on the end-to-end correspondence of the real binary (built -tags verif, also -race) against the composition of library calls.",
   note="Trusted: as C12 plus urfave/cli, path, os.",
   tech=TECH + " (CLI glue tie + tie H on the real binary)", ref="DESIGN.md 6 C13"),
  "C14": dict(
@@ -80,7 +80,7 @@ P = {
   note="Trusted: as C14; float rounding is an envelope.",
   tech=TECH + " (tie G3 data, tie H)", ref="DESIGN.md 6 C15"),
  "C16": dict(
-  text="Theorems about the model of the decoder/encoder as the code stands: decode-encode-decode, stable encoding, totality, rejection of non-positive sizes where the code rejects them; refuted theorems + known findings (F6b, F6c) for what the code still gets wrong; built-in documents by computation over regenerated data.",
+  text="Full at model level: decode-encode-decode (unconditional), stable encoding, decoder totality (no document panics), every non-positive, fractional or oversized size member rejected (defects F6a, F6b, F6c repaired; regression Examples); built-in and test documents by computation over data regenerated on every run.",
   note="Trusted: as C14; encoding/json, marshmallow, validator, defaults are modelled by their observed coercion rules, held by correspondence over mutated documents.",
   tech=TECH + " (tie G3 data, tie H on mutated documents)", ref="DESIGN.md 6 C16"),
  "C17": dict(
